@@ -42,6 +42,7 @@ def run(ctx):
     _sibling_constructions(ctx, repo)
     _common_unit(ctx, repo)
     _stripped_tags(ctx, repo)
+    _sweep_subclass_shadowing(ctx, repo)
     _exhaustive_match(ctx, repo)
     ctx.decided += [
         'C16.a gate kinds: writer fields within the schema, every schema kind has reader and writer, class written == class rebuilt, '
@@ -1730,3 +1731,44 @@ def _stripped_tags(ctx, repo):
                    f'the branch writes `{v}.untagged` and never looks at `{v}.tags`: tags on the operation vanish on the wire and the round trip is unequal', ci.mod.rel, i_.lineno)
     if n == 0:
         raise AnalysisError('C16.u: no branch serialising an untagged operation found')
+
+
+def _sweep_subclass_shadowing(ctx, repo):
+    """C16.v - a sweep class with a subclass of different meaning (Zip / ZipLongest) is never recognised by isinstance alone."""
+    from ..core import ClassInfo
+    ctx.decided.append('C16.v sweep converters: wherever a concrete sweep class that has a concrete subclass with its own param_tuples (Zip <- ZipLongest) is recognised by isinstance, the '
+                       'same function also tests for the subclass')
+    ctx.rule('C16.v', 'no subclass taken for its base: in cirq_google.api, every function that tests isinstance(x, C) for a sweep class C defining param_tuples, where a subclass D of C '
+             'defines its own param_tuples, also tests isinstance(..., D) - D would otherwise be written as a C and come back with other points', floor=2, style='RG')
+    sw = repo.module('cirq-core/cirq/study/sweeps.py')
+    pairs = []
+    classes = [c for c in repo.classes.values() if c.mod is sw]
+    for c in classes:
+        if 'param_tuples' not in c.methods:
+            continue
+        for d in classes:
+            if d is not c and c in repo.mro(d)[1:] and 'param_tuples' in d.methods:
+                pairs.append((c, d))
+    if not pairs:
+        raise AnalysisError('C16.v: no sweep class with an overriding subclass found')
+    n = 0
+    for m in sorted(repo.modules.values(), key=lambda x: x.rel):
+        if not m.rel.startswith('cirq-google/cirq_google/api/') or m.rel.endswith('_test.py') or '_pb2' in m.rel:
+            continue
+        for fn in [f for f in ast.walk(m.tree) if isinstance(f, ast.FunctionDef)]:
+            tested = {}
+            for c in ast.walk(fn):
+                if isinstance(c, ast.Call) and call_name(c) == 'isinstance' and len(c.args) == 2:
+                    for t in (c.args[1].elts if isinstance(c.args[1], ast.Tuple) else [c.args[1]]):
+                        r = repo.resolve_in_func(m, fn, dotted(t) or '')
+                        if isinstance(r, ClassInfo):
+                            tested.setdefault(r.qual, c)
+            for base, sub in pairs:
+                if base.qual in tested:
+                    n += 1
+                    ok = sub.qual in tested
+                    ctx.ob('C16.v', f'{m.name}.{fn.name}:{base.name}<-{sub.name}', ok, '' if ok else
+                           f'`{ast.unparse(tested[base.qual])}` is also true for a {sub.name}, whose points differ from those of a {base.name} over the same factors; the function never tests '
+                           f'for {sub.name}', m.rel, tested[base.qual].lineno)
+    if n == 0:
+        raise AnalysisError('C16.v: no isinstance test on such a sweep class found in cirq_google.api')
